@@ -286,6 +286,25 @@ pub fn replay(case: &Value) -> Vec<Obs> {
         if run.cycle { obs.push(Obs::bad("C08", "cycle", detail.clone())); } else { obs.push(Obs::ok("C08", "acyclic")); }
     }
 
+    // C01: replace_variables() on the query -- what solve / solve_all format -- gives the answer's value:
+    // equal to the resolved arguments up to renaming of unbound variables (aliasing included)
+    if first_part_ok && owner != "X01" {
+        let mut bad = None;
+        for (i, r) in run.raw.iter().enumerate().take(expect.len()) {
+            if !run.segs[i].some { continue; }
+            match r {
+                Some(Unifiable::SComplex(v)) => {
+                    let got = canon(&v[1..].iter().map(|u| flatten_tails(&project(u))).collect::<Vec<_>>());
+                    if got != run.segs[i].ans { bad = Some(format!("{} :: answer {}: replace_variables gives ({}) for ({})", what, i + 1, show_vec(&got), show_vec(&run.segs[i].ans))); break; }
+                }
+                _ => { bad = Some(format!("{} :: answer {}: replace_variables panicked or returned no complex term", what, i + 1)); break; }
+            }
+        }
+        if owner == "C01" || bad.is_some() {
+            match bad { None => obs.push(Obs::ok("C01", "replace_variables")), Some(d) => obs.push(Obs::bad("C01", "replace_variables", d)) }
+        }
+    }
+
     // C01: solve_all reports the same answers as `$Var = value`
     if owner == "C01" && first_part_ok {
         start_query();
@@ -322,6 +341,23 @@ pub fn replay(case: &Value) -> Vec<Obs> {
         match bad { None => obs.push(Obs::ok("C11", "alpha-variants")), Some(d) => obs.push(Obs::bad("C11", "alpha-variants", d)) }
     }
     obs
+}
+
+/// a list whose tail is (was replaced by) a list is that longer list: `[a | [b, c]]` is `[a, b, c]`
+fn flatten_tails(t: &Tm) -> Tm {
+    match t {
+        Tm::Cx(f, a) => Tm::Cx(f.clone(), a.iter().map(flatten_tails).collect()),
+        Tm::Fn(f, a) => Tm::Fn(f.clone(), a.iter().map(flatten_tails).collect()),
+        Tm::List(a, tl) => {
+            let mut els: Vec<Tm> = a.iter().map(flatten_tails).collect();
+            match tl.as_ref().map(|x| flatten_tails(x)) {
+                None => Tm::List(els, None),
+                Some(Tm::List(a2, t2)) => { els.extend(a2); Tm::List(els, t2) }
+                Some(o) => Tm::List(els, Some(Box::new(o))),
+            }
+        }
+        o => o.clone(),
+    }
 }
 
 fn collect_pairs(t: &Tm, acc: &mut Vec<(String, usize)>) {
